@@ -46,10 +46,12 @@ def gen(rng, tier):
     elif order == 'interleaved':
         ids.sort()
         ids = ids[::2] + ids[1::2]
-    if rng.random() < 0.04:
+    r_big = rng.random()
+    if r_big < 0.05:
         # large tables with "round" slab sizes: ids increasing inside each slab, slabs in decreasing or rotated order
+        # (one case in a hundred: a few hundred thousand halos, the size of a real simulation slab set)
         nslab = rng.randrange(2, 4)
-        counts = [rng.choice([1024, 2048, 4096, 4096, 8192]) for _ in range(nslab)]
+        counts = [rng.choice([1024, 2048, 4096, 4096, 8192] if r_big >= 0.01 else [65536, 65536, 100000, 131072]) for _ in range(nslab)]
         total = sum(counts)
         base = sorted(rng.sample(range(1, 4 * total), total))
         blocks, k0 = [], 0
